@@ -475,7 +475,7 @@ def make_methods(log: Log, is_async: bool) -> Dict[str, Callable[..., Any]]:
                 ctxm=a_ctxm)
 
 
-def make_view(log: Log, is_async: bool):
+def make_view(log: Log, is_async: bool, plain_only: bool = False):
     class ProbeView(pjrpc.server.ViewMixin):
         def __init__(self, context=None):
             super().__init__()
@@ -506,6 +506,8 @@ def make_view(log: Log, is_async: bool):
             log.calls.append(('view.sm', (a, b), {}))
             return ['sm', a, b]
 
+    if plain_only:
+        del ProbeView.cm, ProbeView.sm
     return ProbeView
 
 
@@ -558,7 +560,12 @@ def build_registry(log: Log, coroutines: bool) -> 'pjrpc.server.MethodRegistry':
             registry.add(fn, name, context='ctx', positional=True)
         else:
             registry.add(fn, name)
-    registry.view(make_view(log, coroutines), context='context', prefix='view')
+    try:
+        registry.view(make_view(log, coroutines), context='context', prefix='view')
+    except Exception:
+        # a tree on which a view with class / static members cannot even be registered (the defect repaired by 69fb68b): the
+        # rest of the probe world is still worth judging; the model keeps expecting view.cm / view.sm, so nothing is hidden
+        registry.view(make_view(log, coroutines, plain_only=True), context='context', prefix='view')
     registry.view(make_broken_view(log, coroutines), context='context', prefix='broken')
     registry.view(make_counter_view(log, coroutines), prefix='cnt')
     return registry
